@@ -99,7 +99,13 @@ func ToBytes(message interface{}) ([]byte, error) {
 	case *strings.Reader:
 		return StealBytes(r)
 	case io.WriterTo:
-		return StealBytes(r)
+		// an arbitrary io.WriterTo may reuse its buffer between Write calls,
+		// so the written bytes must be copied rather than stolen.
+		buffer := bytes.NewBuffer(nil)
+		if _, err := r.WriteTo(buffer); nil != err {
+			return nil, err
+		}
+		return buffer.Bytes(), nil
 	case io.Reader:
 		return ioutil.ReadAll(r)
 	default:
